@@ -267,7 +267,8 @@ pub struct SCase {
 }
 pub fn gen_sample(t: &mut Tape, tier: Tier) -> Option<SCase> {
     let mo = if t.bool() { 1.0 / 64.0 } else { 0.15 };
-    let mut p = gen::gen_phys(t, &PhysOpts { max_e: tier.pick(7, 8), max_l: 8, min_omega: mo, dmax: 4, max_ops: 3, profile: gen::CORNERS })?;
+    let opts = PhysOpts { max_e: tier.pick(7, 8), max_l: 8, min_omega: mo, dmax: 4, max_ops: 3, profile: gen::CORNERS };
+    let mut p = if t.chance(0.1) { gen::gen_phys_union(t, &opts)? } else { gen::gen_phys(t, &opts)? };
     // sprinkle exact zeros / extremes over all coordinates
     let n = p.x.len();
     let k = t.below(4);
@@ -322,7 +323,7 @@ fn sample_d<const D: usize>(c: &SCase, ctx: &mut Ctx) -> Result<(), Failure> {
 pub fn check_sample(c: &SCase, ctx: &mut Ctx) -> Result<(), Failure> {
     let c = &SCase { tol: if c.tol_inf { f64::INFINITY } else { c.tol }, ..c.clone() };
     // the closed lower end (exact zeros) is part of this property's domain
-    let (_ne, _nl) = phys::validate(&c.p)?;
+    let (_ne, _nl) = phys::validate_opt(&c.p, true)?;
     if !(c.tol > 0.0) {
         fail!("bad-case", "bad tolerance");
     }
